@@ -69,9 +69,11 @@ SLICE_FNS = {      # mirrored by Driver/PipeAgg.lean `sliceFn`
     'both': lambda x, y: (int(x), int(y)),
     'pair': lambda x, y: ((int(x), int(y)),),
     'sum': lambda x, y: (int(x) + int(y),),
+    'twice_small': lambda x: (int(x), int(x)) if int(x) <= 1 else (),      # the same value twice, or nothing
+    'repeat': lambda x, y: (int(x),) * max(int(y), 0),                      # x emitted y times
     'bad_arity': lambda x: ((int(x), int(x)),),
 }
-FN_ARITY = {'parity': (1, 1), 'self_and_neg': (1, 1), 'small': (1, 1), 'both': (2, 1), 'pair': (2, 2), 'sum': (2, 1),
+FN_ARITY = {'twice_small': (1, 1), 'repeat': (2, 1), 'parity': (1, 1), 'self_and_neg': (1, 1), 'small': (1, 1), 'both': (2, 1), 'pair': (2, 2), 'sum': (2, 1),
             'bad_arity': (1, 2)}      # (number of features, length of a slice value)
 
 
@@ -797,7 +799,7 @@ def row_slicer(rng, which=None):
     sl = dict(kind='within', keys=['a', 'b'], name=['a', 'b'],
               within=[sorted(rng.sample(range(0, 4), rng.randrange(1, 4))), sorted(rng.sample(range(0, 3), rng.randrange(1, 3)))])
   else:
-    f = rng.choice(['parity', 'self_and_neg', 'small', 'both', 'pair', 'sum'])
+    f = rng.choice(['parity', 'self_and_neg', 'small', 'both', 'pair', 'sum', 'twice_small', 'repeat', 'repeat'])
     nf, nv = FN_ARITY[f]
     keys = [rng.choice(['a', 'b'])] if nf == 1 else ['a', 'b']
     sl = dict(kind='fn', fn=f, keys=keys, name=[f + '_' + '_'.join(keys)] if nv == 1 else [f + '_0', f + '_1'])
@@ -912,6 +914,47 @@ def gen_systematic(rng):
         a = mk_agg(rng, kind, ins, 0)
         case = dict(aggs=[a], slicers=[mask_slicer(rng, 'nested', ins)], batches=gen_stream(rng, 'nested', sizes=sizes), np=[])
         yield case
+
+
+def gen_fanout_dups(rng):
+  """fan-out slice functions with repeated and missing emissions: batches with ONE distinct slice value in which some
+  rows emit it several times and others emit nothing, in particular with #emissions == #rows"""
+  for _ in range(40):
+    nb = rng.randrange(1, 4)
+    batches = []
+    for _ in range(nb):
+      n = rng.randrange(2, 5)
+      v = rng.randrange(0, 3)
+      mode = rng.choice(['balanced', 'balanced', 'free'])
+      if mode == 'balanced':       # counts in {0,1,2} summing to n, with at least one 2 and one 0
+        counts = [2, 0] + [1] * (n - 2)
+        for _ in range(rng.randrange(0, 2)):
+          ones = [i for i, c in enumerate(counts) if c == 1]
+          if len(ones) >= 2:
+            counts[ones[0]], counts[ones[1]] = 2, 0
+        rng.shuffle(counts)
+      else:
+        counts = [rng.randrange(0, 3) for _ in range(n)]
+      b = gen_batch(rng, n, 0, 'flat')
+      b['a'] = [v] * n if rng.random() < 0.8 else [rng.randrange(0, 3) for _ in range(n)]
+      b['b'] = counts
+      batches.append(b)
+    kind, ins = rng.choice([('sumcount', ['x']), ('meanvar', ['x']), ('counter', ['x']), ('dot', ['x', 'y']), ('total', ['m'])])
+    sl = dict(kind='fn', fn='repeat', keys=['a', 'b'], name=['rep'], replace=rng.choice([None, None, 0]))
+    yield dict(aggs=[mk_agg(rng, kind, ins, 0)], slicers=[sl], batches=batches, np=['d'] + (['x'] if rng.random() < 0.5 else []))
+  for _ in range(20):            # one feature: values <= 1 are emitted twice, larger ones not at all
+    nb = rng.randrange(1, 4)
+    batches = []
+    for _ in range(nb):
+      n = rng.choice([2, 2, 4])
+      b = gen_batch(rng, n, 0, 'flat')
+      v = rng.randrange(0, 2)
+      col = [v] * (n // 2) + [rng.randrange(2, 5) for _ in range(n - n // 2)]
+      rng.shuffle(col)
+      b['a'] = col
+      batches.append(b)
+    sl = dict(kind='fn', fn='twice_small', keys=['a'], name=['ts'], replace=None)
+    yield dict(aggs=[mk_agg(rng, 'sumcount', ['x'], 0)], slicers=[sl], batches=batches, np=['d'])
 
 
 def gen_malformed(rng):
@@ -1032,6 +1075,23 @@ def features_of(case):
           if i > 0 and ks - seen:
             f.add('slice-first-seen-late')
           seen |= ks
+  for sl in case['slicers']:
+    if sl['kind'] == 'fn' and not case.get('malform'):
+      for b in case['batches']:
+        try:
+          ems = [[v if isinstance(v, tuple) else (v,) for v in SLICE_FNS[sl['fn']](*[b[k][i] for k in sl['keys']])]
+                 for i in range(nrows(b))]
+        except Exception:  # pylint: disable=broad-except
+          continue
+        if any(len(e) != len(set(e)) for e in ems):
+          f.add('fanout:row-repeats-a-value')
+        if ems and any(not e for e in ems):
+          f.add('fanout:row-emits-nothing')
+        distinct = {v for e in ems for v in e}
+        if len(distinct) == 1:
+          f.add('fanout:one-distinct-value')
+          if sum(len(e) for e in ems) == len(ems) and any(not e for e in ems):
+            f.add('fanout:one-value,emissions==rows,some-row-empty')
   if not case['batches']:
     f.add('empty-stream')
   if any(nrows(b) == 0 for b in case['batches']):
@@ -1047,7 +1107,8 @@ REQUIRED = ['aggs:1', 'aggs:2', 'aggs:3', 'slicers:0', 'slicers:1', 'slicers:2',
             'agg:meanvar', 'agg:mean', 'agg:counter', 'agg:sumcount', 'agg:total', 'agg:dot', 'agg:pr', 'agg:dictavg',
             'disable_slicing', 'input:SELF', 'input:kwargs', 'outkeys:1/2', 'outkeys:2/2',
             'slicer:single', 'slicer:cross', 'slicer:within', 'slicer:within-cross', 'slicer:fn:parity', 'slicer:fn:self_and_neg',
-            'slicer:fn:both', 'slicer:fn:pair', 'slicer:fn:small', 'slicer:mask:one', 'slicer:mask:per-input', 'slicer:mask:none',
+            'slicer:fn:both', 'slicer:fn:pair', 'slicer:fn:repeat', 'slicer:fn:twice_small', 'fanout:row-repeats-a-value',
+            'fanout:row-emits-nothing', 'fanout:one-distinct-value', 'fanout:one-value,emissions==rows,some-row-empty', 'slicer:fn:small', 'slicer:mask:one', 'slicer:mask:per-input', 'slicer:mask:none',
             'mask:np', 'mask:list', 'mask:t', 'mask:dict', 'mode:replace', 'mode:filter', 'slice-first-seen-late', 'empty-stream', 'empty-batch',
             'entry:__call__', 'malformed:missing_input', 'malformed:dup_out', 'malformed:dup_slice', 'malformed:too_many_out',
             'malformed:unhashable', 'malformed:missing_feature']
@@ -1063,6 +1124,7 @@ def gen_cases(ctx):
       yield case
   yield from counted(ctx.corpus())
   yield from counted(gen_systematic(rng))
+  yield from counted(gen_fanout_dups(rng))
   n = 1200 if ctx.quick else 30000
   yield from counted(gen_random(rng) for _ in range(n))
   yield from counted(gen_malformed(rng) for _ in range(n // 9))
